@@ -431,6 +431,7 @@ LOOP:
 		select {
 		case iderr := <-done:
 			g.Vertices[iderr.ID].status = runDone
+			verifEmit("recv", g, iderr.ID, verifErrKind(iderr.Error))
 			if iderr.Error != nil {
 				err := fmt.Errorf("Task %s:%s error: %w", g.Name, iderr.ID, iderr.Error)
 				Logger.Printf(g.colorError("Task ")+g.colorErrorBold("%s:%s")+g.colorError(" error: %s\n"), g.Name, iderr.ID, iderr.Error)
@@ -445,6 +446,7 @@ LOOP:
 			if allDone {
 				// Tasks completed outside of this task run.
 				// For example when the same graph was passed to multiple methods and run multiple times.
+				verifEmit("alldone", g, "", "")
 				break LOOP
 			}
 			select {
@@ -455,10 +457,12 @@ LOOP:
 				Logger.Print(g.colorError("Cancellation received or time out reached, allowing in-progress tasks to finish, skipping the rest.\n"))
 				g.errs.Errors = append(g.errs.Errors, fmt.Errorf("cancellation received or time out reached"))
 				handledContext = true
+				verifEmit("cancelobserved", g, "", "")
 			default:
 				break
 			}
 			if !ok {
+				verifEmit("idle", g, "", "")
 				time.Sleep(g.TickerDuration)
 				// TODO: Add a timeout to not wait infinitely for a task.
 				continue
@@ -466,6 +470,7 @@ LOOP:
 			if v.status == runSkip {
 				v.status = runInProgress
 				Logger.Printf(g.colorError("Skipped Task ")+g.colorErrorBold("%s:%s\n"), g.Name, v.ID)
+				verifEmit("launch", g, v.ID, "skip")
 				go func(done chan IDErr, v *Vertex) {
 					done <- IDErr{v.ID, nil}
 				}(done, v)
@@ -473,18 +478,24 @@ LOOP:
 			}
 			v.status = runInProgress
 			if len(g.errs.Errors) != 0 {
+				verifEmit("launch", g, v.ID, "errskip")
 				go func(done chan IDErr, v *Vertex) {
 					done <- IDErr{v.ID, ErrorTaskSkipped}
 				}(done, v)
 				continue
 			}
+			verifEmit("launch", g, v.ID, "run")
 			go func(ctx context.Context, done chan IDErr, v *Vertex) {
 				semaphore <- struct{}{}
+				verifEmit("acquired", g, v.ID, "")
 				defer func() { <-semaphore }()
+				defer verifEmit("releasing", g, v.ID, "")
 				Logger.Printf(g.colorInfo("Running Task ")+g.colorInfoBold("%s:%s\n"), g.Name, v.ID)
 				start := time.Now()
 				v.Task.Lock()
+				verifEmit("locked", g, v.ID, "")
 				defer v.Task.Unlock()
+				defer verifEmit("unlocking", g, v.ID, "")
 				combinedBuffer := bytes.Buffer{}
 				// TODO: It would be great to be able to color the output independently here
 				stdoutBuffer := &combinedBuffer
@@ -499,6 +510,7 @@ LOOP:
 					if g.bufferOutput {
 						g.bufferMutex.Lock()
 						_, _ = combinedBuffer.WriteTo(g.bufferWriter)
+						verifEmit("flush", g, v.ID, "")
 						g.bufferMutex.Unlock()
 					}
 					Logger.Printf(g.colorInfo("Completed Task ")+g.colorInfoBold("%s:%s")+g.colorInfo(" in %s\n"), g.Name, v.ID, durationStr(time.Since(start)))
@@ -510,6 +522,7 @@ LOOP:
 						Logger.Printf(g.colorInfo("Retrying (%d/%d) Task %s:%s\n"), i+1, v.Retries, g.Name, v.ID)
 					}
 				}
+				verifEmit("sending", g, v.ID, verifErrKind(err))
 				done <- IDErr{v.ID, err}
 			}(ctx, done, v)
 		}
